@@ -35,8 +35,9 @@ func TestSweep(t *testing.T) {
 						}
 						for _, s1 := range srcs {
 							Oracle.One(t, env, rec, "sweep", &Case{T: tn, C: C, Kr: K, A: a, B: b, Srcs: []Src{s1}})
-							for _, s2 := range []Src{{Kind: "self"}, {Kind: "sep", Kr: 1, A: 0, B: 1}, {Kind: "sep", Kr: 3, A: 0, B: 3}} {
-								Oracle.One(t, env, rec, "sweep", &Case{T: tn, C: C, Kr: K, A: a, B: b, Srcs: []Src{s1, s2}})
+							for si, s2 := range []Src{{Kind: "self"}, {Kind: "sep", Kr: 1, A: 0, B: 1}, {Kind: "sep", Kr: 3, A: 0, B: 3}} {
+								// every third pair on a destination whose root came out of a pool
+								Oracle.One(t, env, rec, "sweep", &Case{T: tn, C: C, Kr: K, A: a, B: b, Srcs: []Src{s1, s2}, Pooled: (si+a+b)%3 == 0})
 							}
 						}
 					}
